@@ -158,6 +158,35 @@ def _record_stream():
     REC['cached'] = bool(getattr(cherrypy.serving.request, 'cached', False))
 
 
+def parse_hook(spec):
+    """'<prio>:<act>:<once>' -> (prio, act, once)"""
+    prio, act, once = spec.split(':')
+    return int(prio), act, once == '1'
+
+
+def _probe():
+    """A user-supplied before_finalize hook: raises, rewrites the body by the rule, or sets the status."""
+    spec = CUR['case'].get('hook', '-')
+    if spec == '-':
+        return
+    prio, act, once = parse_hook(spec)
+    if once and REC.get('probe_fired'):
+        return
+    REC['probe_fired'] = True
+    resp = cherrypy.serving.response
+    if act == 'x':
+        raise _Boom('hook failed')
+    if act[0] == 'e':
+        raise cherrypy.HTTPError(int(act[1:]))
+    if act[0] == 'r':
+        raise cherrypy.HTTPRedirect('/target', int(act[1:]))
+    if act[0] == 's':
+        resp.status = int(act[1:])
+    elif act[0] == 'w':
+        resp.body = bytes.fromhex(act[1:])
+        resp.headers.pop('Content-Length', None)
+
+
 def _record_etag():
     # the entity tag validate_etags (priority 75) saw when it evaluated the conditions
     REC.setdefault('etag_seen', cherrypy.serving.response.headers.get('ETag'))
@@ -177,6 +206,7 @@ def init():
     import shutil
     atexit.register(shutil.rmtree, _INIT['tmp'], True)
     # one process-wide cache object (its constructor starts a sweeper thread): cleared per case
+    cherrypy.tools.c06probe = cherrypy.Tool('before_finalize', _probe, priority=60)
     cherrypy._cache = _caching.MemoryCache()
     cherrypy._cache.antistampede_timeout = None
     _INIT['done'] = True
@@ -207,9 +237,20 @@ def make_app(case):
         conf['response.stream'] = True
     if case['body'].startswith('J:'):
         conf['tools.json_out.on'] = True
+    if case.get('hook', '-') != '-':
+        conf['tools.c06probe.on'] = True
+        conf['tools.c06probe.priority'] = parse_hook(case['hook'])[0]
     if case.get('page', 'tmpl') != 'tmpl':
         conf['error_page.default'] = _error_page
-    return cherrypy.Application(Root(), '', {'/': conf})
+    # one Application per process, re-configured per case (every new Application registers two more
+    # loggers, and logging.setLevel walks all of them)
+    app = _INIT.get('app')
+    if app is None or _INIT.get('app_pid') != os.getpid():
+        app = _INIT['app'] = cherrypy.Application(Root(), '', {})
+        _INIT['app_pid'] = os.getpid()
+    app.config = {}
+    app.merge({'/': conf})
+    return app
 
 
 def environ_for(req):
